@@ -50,6 +50,9 @@ REVERTS = [
     ('revert-F10-level-bound-is-value-count', ['C03', 'C11'], 'fastparquet/core.py',
      "        encoding.read_rle_bit_packed_hybrid(io_obj, bit_width, data_header2.definition_levels_byte_length,\n",
      "        encoding.read_rle_bit_packed_hybrid(io_obj, bit_width, data_header2.num_values,\n"),
+    ('revert-F11-range-index-plus-one', ['C01', 'C17'], 'fastparquet/api.py',
+     "                            stop=ic['start'] + size * ic['step'],\n",
+     "                            stop=ic['start'] + size * ic['step'] + 1,\n"),
 ]
 
 # functions whose twins are run per property (module, qualname)
